@@ -1,9 +1,11 @@
 // Generates the (signed, nbits, frac) -> concrete type dispatch table for the typed harness.
 use std::{env, fs, path::PathBuf};
+include!("build_ext_from.rs");
 fn main() {
     println!("cargo:rerun-if-env-changed=SFX_FRACS");
     println!("cargo:rerun-if-changed=fracs_quick.txt");
     println!("cargo:rerun-if-changed=build.rs");
+    println!("cargo:rerun-if-changed=build_ext_from.rs");
     let mode = env::var("SFX_FRACS").unwrap_or_else(|_| "quick".into());
     let mut table: Vec<(u32, Vec<u32>)> = Vec::new();
     if mode == "all" {
@@ -67,6 +69,7 @@ fn main() {
         s.push_str(&format!("            ({}, {}, {}) => $run::<{}>($($arg),*),\n", s1, n1, f1, tyname(s1, n1, f1)));
     } }
     s.push_str("            _ => \"SKIP\".to_string(),\n        }\n    };\n}\n");
+    ext_from_dispatch(&table, &mut s);
     let out = PathBuf::from(env::var("OUT_DIR").unwrap());
     fs::write(out.join("dispatch.rs"), s).unwrap();
 }
